@@ -4,6 +4,8 @@ import DyntplV.Esc.Json
 import DyntplV.Esc.Html
 import DyntplV.Esc.Js
 import DyntplV.DriverR
+import DyntplV.DriverC04
+import DyntplV.DriverC12
 /-!
   Line-protocol driver: one request per line on stdin, one answer per line on stdout.
   Runs the *same* definitions the theorems are about.
@@ -71,6 +73,12 @@ def utf16ToCps : List Nat → List Nat
 def answer (line : String) : String :=
   let toks := (line.splitOn " ").filter (· ≠ "")
   match DriverR.answer toks with
+  | some a => a
+  | none =>
+  match DriverC12.answer toks with
+  | some a => a
+  | none =>
+  match DriverC04.answer toks with
   | some a => a
   | none =>
   match toks with
